@@ -598,6 +598,54 @@ def run(ck: Check):
                 except Exception as e:  # noqa: BLE001
                     ck.violation(dict(clause="operable", cls=name + "Config", error=type(e).__name__, regime="long"), dict(what="an accepted configuration raised on an in-domain stream with several level changes", cls=name, params=cfgx, error=repr(e), step=i, segments=segs, stream_head=xs[:5]))
                     break
+    # values NEXT TO the members of a finite admissible set (ECDD-WT's average_run_length is one of 100 / 400 / 1000): a
+    # fractional neighbour or a string / bytes spelling of a member is not a member (deterministic, own generator)
+    import random as _random
+
+    xrng = _random.Random(191919)
+    for spec in specs():
+        if spec.name != "ECDDWTConfig":
+            continue
+        for v in (100.5, 400.5, 1000.25, 99.99999, "400", b"1000", None):
+            pr = dict(spec.defaults, average_run_length=v)
+            resx, obj = outcome(spec, pr)
+            ck.case(dict(cls=spec.name, params={k: repr(x) for k, x in pr.items()}, outcome=resx, kind="next-to-a-member"), nontrivial=resx != "ok", key=repr(("member", spec.name, repr(v))))
+            ck.count("finite_set_neighbour_cases")
+            detail = dict(cls=spec.name, param="average_run_length", value=repr(v), outcome=resx)
+            if resx == "ok":
+                err, where = operate(spec, pr, obj, xrng)
+                ck.violation(dict(clause="accepts-outside-domain", cls=spec.name, param="average_run_length", value="non-member"),
+                             dict(what="a value that is not one of the admissible members is accepted" + ("; the detector then raises on in-domain input" if err is not None else ""), then=repr(err), **detail))
+            elif resx not in OKERR:
+                ck.violation(dict(clause="error-type", cls=spec.name, error=resx, param="average_run_length"), dict(what="rejected with an exception that is neither ValueError/TypeError nor the dedicated error", **detail))
+    # the detector constructors' own `config` parameter: documented as an instance of the detector's configuration class
+    # (or None); anything else - a string, a dict, a number, the configuration CLASS, another detector's configuration -
+    # is outside that domain and has to be rejected (deterministic)
+    import frouros.detectors.concept_drift as _cdm
+
+    dnames = ["ADWIN", "BOCD", "CUSUM", "DDM", "ECDDWT", "EDDM", "GeometricMovingAverage", "HDDMA", "HDDMW", "KSWIN", "PageHinkley", "RDDM", "STEPD"]
+    for i, dn in enumerate(dnames):
+        dcls = getattr(_cdm, dn)
+        other = getattr(_cdm, dnames[(i + 5) % len(dnames)] + "Config")
+        for label, mk in (("str", lambda: "config"), ("dict", lambda: {"min_num_instances": 5}), ("int", lambda: 5), ("the configuration class itself", lambda: dcls.config_type),
+                          (other.__name__ + " instance", lambda: other())):
+            for via in ("constructor", "setter"):
+                try:
+                    if via == "constructor":
+                        dcls(config=mk())
+                    else:
+                        dd_ = dcls()
+                        dd_.config = mk()
+                    resx = "ok"
+                except Exception as e:  # noqa: BLE001
+                    resx = type(e).__name__
+                ck.case(dict(cls=dn, param="config", value=label, via=via, outcome=resx), nontrivial=resx != "ok", key=repr(("cfgtype", dn, label, via)))
+                ck.count("config_object_type_cases")
+                if resx == "ok":
+                    ck.violation(dict(clause="accepts-outside-domain", cls=dn, param="config", value=label if "instance" not in label else "sibling-config"),
+                                 dict(what="the detector accepts as its configuration an object that is not an instance of its configuration class", cls=dn, value=label, via=via))
+                elif resx not in OKERR:
+                    ck.violation(dict(clause="error-type", cls=dn, error=resx, param="config"), dict(what="a configuration object of the wrong type is rejected with an exception that is neither ValueError nor TypeError", cls=dn, value=label, via=via, outcome=resx))
     res = coq_eval("C19", HDR19, [c[3] for c in cases], shard=400)
     for (name, p, im, _), r in zip(cases, res):
         ck.corr_cases += 1
